@@ -297,9 +297,12 @@ class VSchedCheck(SeqCheck):
         rep = {}
         pkgs = set()
         for path, pkg in self.instrument.items():
+            subst = None
+            if isinstance(pkg, tuple):
+                pkg, subst = pkg
             out = os.path.join(wd, path.replace("/", "_"))
             r = sh([os.path.join(BIN, "vrewrite"), "-in", os.path.join(REPO, path), "-out", out,
-                    "-labels", out + ".labels"])
+                    "-labels", out + ".labels"] + (["-subst", subst] if subst else []))
             if r.returncode != 0:
                 log("vrewrite failed on", path, r.stdout[-2000:])
                 return False
@@ -363,6 +366,61 @@ class C08(VSchedCheck):
     def failing_text(self):
         return ("at quiescence (no goroutine can move) a reader is parked in Read although a packet is buffered, the buffer is closed "
                 "or the deadline has passed; the configuration holds the goroutine kinds (0 reader, 1 writer, 2 closer), 77, then the schedule")
+
+
+class UDPL(VSchedCheck):
+    diff_is_violation = True
+    harness = "udpl"
+    hbin = "h_udpl"
+    model_entry = "udp_model"
+    instrument = {"udp/conn.go": ("udp", "net.ListenUDP=vListenUDP")}
+    extra_overlay = {"udp/verif_export.go": "udp/verif_export.go"}
+    quick_n = 2400
+    thorough_n = 80000
+    shards = 12
+    rule = ("sequential histories on the real ListenConfig.Listen code over an in-memory socket (net.ListenUDP substituted in the copy of conn.go "
+            "regenerated from the working tree): 15-75 operations: datagram from one of 7 remotes (sharing IPs and ports crosswise) with 1-5 byte "
+            "payloads, Accept, Conn.Read (64/2/0 byte slices), Conn.Close, listener Close, then everything closed in a random order; backlog "
+            "1/2/3/128, accept filters none / first byte odd / reject all; every observation carries 'socket closed?'; non-trivial = at least 2 "
+            "accepted connections and 3 delivered datagrams; distinct = distinct (config, operations)")
+    trusted = ["tools/vrewrite (here only the call substitution net.ListenUDP -> in-memory socket matters; yield hooks are off)",
+               "overlay file harness/overlay/udp/verif_export.go (queue length / buffered count accessors)", "testing/synctest (quiescence after each operation)"]
+    assumptions = ["operations are issued one at a time (each completes before the next starts)", "IPv4 remotes"]
+
+    def shrink(self, line, pred):
+        return SeqCheck.shrink(self, line, pred)
+
+    def is_nontrivial(self, conf, ops, obs):
+        o = segs(obs)
+        p = segs(ops)
+        acc = sum(1 for a, b in zip(p, o) if a == "2" and b.startswith("0 "))
+        rd = sum(1 for a, b in zip(p, o) if a.startswith("3 ") and b.startswith("0 "))
+        return acc >= 2 and rd >= 3
+
+
+class C11(UDPL):
+    pid = "C11"
+    design_ref = "4 (C11/C12)"
+    technique = "Coq proof (dispatch facts of the listener model for every state) + differential correspondence check of the real Listen code on an in-memory socket"
+    level_text = ("Coq theorems about the listener model: a datagram from a known remote is appended to exactly that connection and changes nothing "
+                  "else; from an unknown remote it creates exactly one connection (queued last, holding the datagram) iff accepting, admitted by the "
+                  "filter and the backlog has room, else nothing changes; reads are FIFO per connection; Close unmaps the remote so that a later "
+                  "datagram creates a fresh connection. Tied to the code by differential histories against the real ListenConfig.Listen/readLoop/getConn "
+                  "running on an in-memory socket in synctest bubbles")
+    level_note = ("trusted: Coq kernel, extraction + driver, harness; the OS socket is replaced by an in-memory PacketConn (kernel UDP delivery is not "
+                  "exercised); batch reading (readBatch) is not exercised by this check; operations are sequential (interleavings are C12's subject)")
+
+
+class C12(UDPL):
+    pid = "C12"
+    design_ref = "4 (C11/C12)"
+    technique = "Coq proof (reference-count invariant over all histories: socket closed iff listener closed and no accepted connection open) + differential correspondence check of the real Listen/Close code on an in-memory socket"
+    level_text = ("Coq theorems over all histories of arrivals/Accept/Read/Conn.Close/listener Close: the reference count equals (open listener) + "
+                  "queued + accepted-and-open connections, so the socket is closed exactly when the listener is closed and every accepted connection "
+                  "is closed - never earlier; Accept fails after Close; Close is idempotent. Tied to the code by differential histories in which every "
+                  "observation carries the socket's closed flag, and every history ends by closing everything in a random order")
+    level_note = ("partial: proved and checked for sequentially issued operations; the concurrent interleavings of Accept/Close (the window repaired by fix "
+                  "02e2aef) are not yet explored by the controlled scheduler; OS-level port reuse is not exercised (in-memory socket)")
 
 
 class C09(SeqCheck):
@@ -576,6 +634,6 @@ class C16(SeqCheck):
         return any(x.startswith("1") for x in o) and any(x.startswith("0") for x in o)
 
 
-REGISTRY = {"C02": C02, "C03": C03, "C04": C04, "C05": C05, "C06": C06, "C07": C07, "C08": C08, "C09": C09, "C10": C10, "C13": C13, "C14": C14, "C15": C15, "C16": C16, "C18": C18, "C20": C20}
+REGISTRY = {"C02": C02, "C03": C03, "C04": C04, "C05": C05, "C06": C06, "C07": C07, "C08": C08, "C09": C09, "C10": C10, "C11": C11, "C12": C12, "C13": C13, "C14": C14, "C15": C15, "C16": C16, "C18": C18, "C20": C20}
 
 NOT_CLAIMED = {}
